@@ -17,7 +17,8 @@
 (*   BlockUndone  processTx(Unmined) in block order, unmined()             *)
 (*   Expire/Evict Tick (expireOldTxs: Delete with children;                *)
 (*                removeExcessiveTxs: Delete from the listing's end)       *)
-(*   SaveLoad     MempoolSave + MempoolLoad (indexes are rebuilt)          *)
+(*   SaveLoad     MempoolSave + MempoolLoad (indexes are rebuilt); with a  *)
+(*                damaged file: SaveLoadFailed (InitMempool: empty pool)   *)
 (*   Observe      GetSortedMempoolRBF (rebuilds a dirty list; CPFP merge)  *)
 (*   DropOrphan   limitRejected (which entry is dropped is policy)         *)
 (* What is POLICY is left open on purpose: a submission may be refused at  *)
@@ -454,6 +455,15 @@ SaveLoad ==
     /\ last' = [a |-> "SaveLoad", t |-> 0, res |-> ""]
     /\ UNCHANGED <<chain, utxo, orph, need, nMined, nUndone>>
 
+\* MempoolSave, the file cut short or damaged (a crash while saving), MempoolLoad on the same tip: any error while
+\* loading ends in InitMempool - the node goes on with an EMPTY, fully consistent pool and reject cache
+SaveLoadFailed ==
+    /\ Idle
+    /\ pool' = <<>> /\ spent' = {} /\ orph' = <<>> /\ sortedL' = <<>> /\ dirty' = FALSE
+    /\ Stale
+    /\ last' = [a |-> "SaveLoad", t |-> 0, res |-> "failed"]
+    /\ UNCHANGED <<chain, utxo, need, nMined, nUndone>>
+
 \* GetSortedMempoolRBF (+ GetSortedMempool): a dirty list is rebuilt first
 Observe ==
     /\ Idle /\ ~obs.fresh
@@ -491,6 +501,7 @@ Next ==
     \/ \E k \in 1..2 : Evict(k)
     \/ \E o \in DOMAIN orph : DropOrphan(o)
     \/ SaveLoad
+    \/ SaveLoadFailed
     \/ Observe
 
 Spec == Init /\ [][Next]_vars
@@ -607,6 +618,9 @@ StepUndone(txs) ==
     /\ DOMAIN pool' \ P \subseteq Range(txs)
     /\ AllowEvict \/ Explained(Range(txs))
 
+\* save + load: nothing appears; a load that reports failure leaves an empty pool and an empty reject cache
+StepSaveLoad(ok) == /\ DOMAIN pool' \subseteq P
+                    /\ ~ok => DOMAIN pool' = {} /\ spent' = {} /\ DOMAIN orph' = {}
 StepTick == DOMAIN pool' \subseteq P                                            \* Expire, Evict, SaveLoad: nothing appears
 StepQuiet == pool' = pool /\ spent' = spent                                     \* Observe, DropOrphan
 
@@ -615,7 +629,7 @@ StepOK ==
     \/ last'.a = "BlockMined" /\ StepMined(chain'[Len(chain')].txs)
     \/ last'.a = "BlockUndone" /\ StepUndone(chain[Len(chain)].txs)
     \/ last'.a = "Tick" /\ StepTick
-    \/ last'.a = "SaveLoad" /\ pool' = pool /\ spent' = spent
+    \/ last'.a = "SaveLoad" /\ StepSaveLoad(last'.res # "failed")
     \/ last'.a = "Observe" /\ StepQuiet
 StepsOK == [][StepOK]_vars
 
